@@ -93,6 +93,14 @@ CHECKS = {
             "out-of-domain values are compared with plain comparisons on the values.",
             "exhaustive: true refers to the 8-bit tier space only; wider domains are sampled. Floats are ordered by the IEEE total order on non-NaN values (-0.0 below +0.0); NaN not generated.",
             "DESIGN.md section 2 C13"),
+    "C14": ("exploration",
+            "property-based testing (Hypothesis): generated corpora and view requests checked against Python sorted()/set algebra over the document model; column vs posting twins as a differential",
+            "Generated multi-segment corpora with missing values, deletions and a segment lacking every sort column; every sort field exists with and without a column. Sorts (asc, "
+            "reversed facet, global reverse, limited, multi-key with mixed directions), grouping by field/query/range/overlapping/stored facets, collapse with limits, filter and "
+            "mask as query/Results/set, pages and len(results) for several limits are compared with the model: exact order with document order on ties, twins agree, groups "
+            "partition the matches, collapse keeps the best N and counts the rest, filter/mask restrict without reordering, pages are slices.",
+            "The end at which documents without a value are placed is not asserted (facets.rst and the implementation differ for reversed facets); what is asserted is one contiguous block in document order and agreement between column and posting twins (recorded finding for text fields).",
+            "DESIGN.md section 2 C14"),
     "C15": ("exploration",
             "property-based testing (Hypothesis): metamorphic relation docs(r(q)) == docs(q) over generated query trees and indexes",
             "Generated query trees over all public query types (incl. spans, Sequence, NullQuery, empty compounds, overlapping ranges) are rewritten by "
